@@ -83,6 +83,8 @@ class World:
                 out.append(self.ev("CaptionNode.create_break(layout_info=l)", l=lay))
             elif isinstance(it, tuple) and it[0] == "i":
                 out.append(self.ev("CaptionNode.create_style(s, {'italics': True}, layout_info=l)", s=it[1], l=lay))
+            elif isinstance(it, tuple) and it[0] == "s":
+                out.append(self.ev("CaptionNode.create_style(s, c, layout_info=l)", s=it[1], c=dict(it[2]), l=lay))
             else:
                 out.append(self.ev("CaptionNode.create_text(t, layout_info=l)", t=it, l=lay))
         return out
@@ -98,13 +100,13 @@ class World:
             langs[lang] = self.ev("CaptionList(c, layout_info=l)", c=cl, l=self.layout(spec.get("lang_layout", {}).get(lang)))
         return self.ev("CaptionSet(d, styles=st)", d=langs, st={k: dict(v) for k, v in spec.get("styles", {}).items()})
 
-    def write(self, path, cls_name, cs, **kw):
+    def write(self, path, cls_name, cs, init_kw=None, **kw):
         cls = self.ctx.index.get_class(path, cls_name)
         fn, init = cls.find_method("write"), cls.find_method("__init__")
         me = Stub("writer", {}, cls=cls)
         self.n += 1
         if init is not None:
-            self.F.call_function(init, [], {}, self_value=me)
+            self.F.call_function(init, [], dict(init_kw or {}), self_value=me)
         return fn, self.F.call_function(fn, [cs], dict(kw), self_value=me), me
 
 
@@ -133,6 +135,9 @@ def lines_of(items):
             cur, ital = "", ""
         elif isinstance(it, tuple) and it[0] == "i":
             on = bool(it[1])
+        elif isinstance(it, tuple) and it[0] == "s":
+            if it[2].get("italics"):
+                on = bool(it[1])
         else:
             cur += it
             if on:
@@ -333,6 +338,9 @@ def caption_sets(thorough):
         "lang_layout": {"en-US": L1}}
     yield "closing style node with a layout nothing else uses", {
         "langs": {"en-US": [(S, 2 * S, [("L", L1), ("i", True), "slanted", ("L", L3), ("i", False)], L1, None)]}}
+    yield "span with its own text-align and a layout", {"langs": {"en-US": [(S, 2 * S, [
+        "plain ", ("L", L1), ("s", True, {"text-align": "center", "italics": True}), "centred",
+        ("s", False, {"text-align": "center", "italics": True}), ("L", None), " end"], None, None)]}}
     # document styles, one named 'p'
     yield "document styles", {"langs": {"en-US": [(S, 2 * S, ["styled"], None, {"class": "emph"}),
                                                   (3 * S, 4 * S, ["plain"], None, None)]},
@@ -409,6 +417,31 @@ def explore(ctx, thorough):
                 bad["wellformed"].append(dict(case, problem=err, document=doc[-400:]))
             else:
                 _judge_dfxp(spec, parsed, doc, case, bad)
+        # ---------------- the same writer under its other options: still a well-formed document with the same cues and
+        # resolvable references (the options add attributes or change numbers, nothing else)
+        if doc is not None and ("layout" in label or "text-align" in label):
+            for opts in ({"write_inline_positioning": True}, {"relativize": False}, {"fit_to_screen": False},
+                         {"video_width": 640, "video_height": 360, "write_inline_positioning": True}):
+                oname = ", ".join(f"{k}={v}" for k, v in opts.items())
+                try:
+                    _, idoc, _ = W.write("pycaption/dfxp/base.py", "DFXPWriter", cs, init_kw=dict(opts))
+                except FoldRaise as e:
+                    bad["structure"].append(dict(case, options=oname, raises=f"{e.exc_name}: {e}"[:160]))
+                    continue
+                except AnalysisError as e:
+                    raise AnalysisError(f"DFXPWriter({oname}).write cannot be folded on the set '{label}': {e}")
+                iparsed, ierr = read_dfxp(idoc)
+                if iparsed is None:
+                    bad["wellformed"].append(dict(case, options=oname, problem=ierr,
+                                                  document=[l_.strip() for l_ in idoc.splitlines() if "<span" in l_ or "<p " in l_][:3]))
+                    continue
+                refs_ = [p_ for p_ in iparsed["problems"] if "definition" in p_ or "xml:id" in p_ or "never referenced" in p_]
+                if refs_:
+                    bad["refs"].append(dict(case, options=oname, problems=refs_[:3]))
+                plain, _ = read_dfxp(doc)
+                if plain is not None and [[(p_["begin"], p_["end"], p_["lines"]) for p_ in ps] for _, _, ps in iparsed["langs"]] != \
+                        [[(p_["begin"], p_["end"], p_["lines"]) for p_ in ps] for _, _, ps in plain["langs"]]:
+                    bad["structure"].append(dict(case, options=oname, why="the cues differ from those written without the options"))
         # ---------------- the other DFXP writers (one p per run of concurrent captions)
         for wname in ("SinglePositioningDFXPWriter", "LegacyDFXPWriter"):
             try:
@@ -533,7 +566,7 @@ def _judge_dfxp(spec, parsed, doc, case, bad):
             for it in items:
                 if isinstance(it, tuple) and it[0] == "L":
                     cur = it[1]
-                elif isinstance(it, tuple) and it[0] == "i":
+                elif isinstance(it, tuple) and it[0] in ("i", "s"):
                     span = cur if it[1] else None          # DFXP carries a node-level layout on the span it opens
                 elif isinstance(it, str):
                     eff = span or clay or lay_lang
